@@ -1,5 +1,5 @@
 From Coq Require Import List NArith Arith Permutation Sorted.
-From SK Require Import lib.LGraph lib.Mono model.C11_Model proof.C11_Aut proof.C11_WL proof.C11_Dedup proof.C11_Main proof.C11_Comp proof.C11_VF2 proof.C11_Vocab proof.C11_Sig proof.C11_Anchor model.C11_State proof.C11_StateProof model.C11_Partial proof.C11_PartialProof proof.C11_PruneClass proof.C11_WLPart proof.C11_Idem model.C11_Keys model.C11_Attr proof.C11_AttrProof model.C11_Orbit proof.C11_OrbitProof proof.C11_Extend model.C11_Order proof.C11_OrderProof model.C11_Views proof.C11_ViewsProof proof.C11_Singleton proof.C11_Count proof.C11_WLMono model.C11_AttrFull.
+From SK Require Import lib.LGraph lib.Mono model.C11_Model proof.C11_Aut proof.C11_WL proof.C11_Dedup proof.C11_Main proof.C11_Comp proof.C11_VF2 proof.C11_Vocab proof.C11_Sig proof.C11_Anchor model.C11_State proof.C11_StateProof model.C11_Partial proof.C11_PartialProof proof.C11_PruneClass proof.C11_WLPart proof.C11_Idem model.C11_Keys model.C11_Attr proof.C11_AttrProof model.C11_Orbit proof.C11_OrbitProof proof.C11_Extend model.C11_Order proof.C11_OrderProof model.C11_Views proof.C11_ViewsProof proof.C11_Singleton proof.C11_Count proof.C11_WLMono model.C11_AttrFull proof.C11_Subset model.C11_State2 proof.C11_State2Proof.
 Import ListNotations.
 
 (** Vocabulary (definitions in proof/C11_Aut.v, written out here for the reader):
@@ -636,3 +636,39 @@ Theorem C11_wl_sweeps :
     (snd (refine_once fe g (wl fn fe g k)) = false -> forall j, wl fn fe g (k + j) = wl fn fe g k).
 Proof. exact wl_sweeps. Qed.
 Print Assumptions C11_wl_sweeps.
+
+(** deduplicate_matches_by_automorphisms with a SUBSET of the rule symmetries (round 5; the docstring: "Any subset of the
+    automorphism group is safe; a smaller subset only prunes less").  [rel1 A m m'] := m has the items of m', or the items
+    of m' with the pattern side moved by a member of A.  For a duplicate-free list of matches on the rule centre and any
+    list A' of rule symmetries: whatever the full group keeps, A' keeps too; and every raw match is still related, by a
+    symmetry of the full group, to a match A' keeps. *)
+Theorem C11_dedup_subset_safe :
+  forall (X : Type) (key : X -> mapping) (rc : graph) (raw : list X) (A' : list mapping),
+    simple_graph rc -> NoDup raw ->
+    (forall x, In x raw -> forall p h, In (p, h) (key x) -> In p (node_ids rc)) ->
+    (forall s, In s A' -> In s (rule_auts rc)) ->
+    (forall x, In x (dedup_aut key (rule_auts rc) raw) -> In x (dedup_aut key A' raw)) /\
+    (forall x, In x raw -> exists y, In y (dedup_aut key A' raw) /\
+       (set_eqb (key x) (key y) = true \/ exists s, In s (rule_auts rc) /\ set_eqb (key x) (act s (key y)) = true)).
+Proof. exact dedup_subset_safe. Qed.
+Print Assumptions C11_dedup_subset_safe.
+
+(** AutoEst with its cached orbit index as a state machine (round 5; model/C11_State2.v; the histories of the correspondence
+    run exactly [index_history]): before the first fit reading raises; after a fit the index is that of the colouring of the
+    CURRENT graph whatever was cached; a second read returns the cached answer; an in-place edit without a new fit leaves
+    the answer as it was; over a whole history "edit, read, fit, read, read" the stale answer is the previous fresh one. *)
+Theorem C11_est_index_state :
+  forall (fn : nlab -> N) (fe : elab -> N) (k : nat),
+    (forall g, fst (s_orbit_index (s_new g)) = None) /\
+    (forall o, fst (s_orbit_index (s_fit fn fe k o)) = Some (build_index (wl fn fe (s_graph o) k))) /\
+    (forall o, let '(i, o') := s_orbit_index o in s_orbit_index o' = (i, o')) /\
+    (forall o g', fst (s_orbit_index (s_edit g' o)) = fst (s_orbit_index o)) /\
+    (forall gs o prev, fst (s_orbit_index o) = prev ->
+       index_history fn fe k o gs =
+       (fix go (p : option index_t) (l : list graph) :=
+          match l with
+          | [] => []
+          | g :: r => let f := Some (build_index (wl fn fe g k)) in (p, f, f) :: go f r
+          end) prev gs).
+Proof. exact est_index_state. Qed.
+Print Assumptions C11_est_index_state.
